@@ -82,6 +82,16 @@ func (ib *ImageBuilder) Apply(op PhysOp) {
 	}
 }
 
+// Clone returns an independent copy of the builder's state.
+func (ib *ImageBuilder) Clone() *ImageBuilder {
+	c := NewImageBuilder()
+	c.order = append([]string(nil), ib.order...)
+	for k, f := range ib.files {
+		c.files[k] = &fileState{durable: append([]byte(nil), f.durable...), pending: append([]PhysOp(nil), f.pending...), exists: f.exists}
+	}
+	return c
+}
+
 // Mode of a crash image.
 //
 //	kill:   every write issued so far is in the file (the OS keeps it)
